@@ -19,7 +19,9 @@ RULE = (
     "sorting fork branches, else mutual bounded acceptance with loops <=2, "
     "<=1500 executions each way). Across processes: shards i and i+8 draw "
     "the same cases but run under different PYTHONHASHSEED values; the "
-    "parent compares their first outcomes the same way. Non-trivial: the "
+    "parent compares their first outcomes the same way; every corpus "
+    "definition is additionally learned under all 16 hash seeds and "
+    "compared with the outcome under the first. Non-trivial: the "
     "definition has a fork or a loop and the presentation differs from the "
     "enumeration order. One case in ten is a branch-count job set (chain, n "
     "parallel copies of a chain for several n, optional tail - an upstream "
@@ -335,6 +337,17 @@ def run_shard(ctx):
                 "case": case, "r": list(r0)}
 
     from vlib.runner import case_hash
+    # every corpus definition under EVERY hash seed (first outcome only; the
+    # parent compares all shards with shard 0)
+    for i, (name, _) in enumerate(files):
+        case = {"corpus": name, "k": 2, "pick": None, "sched": i}
+        m = pvcase.materialise(case)
+        if m.too_large or not m.jobs or \
+                pvcase.known_family(case, m, "C03"):
+            continue
+        ctx.count("corpus_runs_for_hash_seed_comparison")
+        ctx.bulk["allseeds:" + name] = {"case": case,
+                                        "r": list(first_outcome(case))}
 
     def fn(case):
         r0 = run_case(case, ctx)
@@ -370,6 +383,27 @@ def cross_check(results, hashseeds):
                                  "h0": hashseeds[i % len(hashseeds)],
                                  "h1": hashseeds[(i + half) % len(hashseeds)]}
                 out.append({"case": case, "message": str(v), "shard": i})
+                break
+    # corpus: every shard against shard 0
+    ref = results.get(0, {}).get("bulk", {})
+    for j in sorted(results):
+        if j == 0 or out:
+            continue
+        bj = results[j].get("bulk", {})
+        for h in sorted(k for k in ref if k.startswith("allseeds:")):
+            if h not in bj:
+                continue
+            pairs += 1
+            r0, r1 = tuple(ref[h]["r"]), tuple(bj[h]["r"])
+            h0, h1 = hashseeds[0], hashseeds[j % len(hashseeds)]
+            try:
+                compare(r0, r1, f"PYTHONHASHSEED {h0} vs {h1}")
+            except Violation as v:
+                case = dict(ref[h]["case"])
+                case.update({"pres": 0, "sched1": 0})
+                case["cross"] = {"r0": list(r0), "r1": list(r1),
+                                 "h0": h0, "h1": h1}
+                out.append({"case": case, "message": str(v), "shard": j})
                 break
     cross_check.pairs = pairs
     return out
